@@ -32,6 +32,8 @@ func Run(run *vh.Run) {
 		oneHistory(run, label, hi, nBlocks)
 	}
 	run.Rule = "One leader generates a block history while executing it on the real app (Ethereum transfers/calls/creates on generated contracts, zero-value touches of unfunded vesting accounts whose end times straddle block time / real date / skewed dates, transactions destroying several coin-holding self-destructed contracts, staking- and ERC-20-precompile calls incl. transfer() with equal-power validators, Cosmos bank/staking/distribution/gov/authz/feegrant/create-validator transactions, invalid and over-gas transactions, absent votes leading to jailing, double-sign evidence); every follower re-executes the recorded RequestInitChain + RequestFinalizeBlock sequence in a fresh process and emits one trace line per block (app hash; per tx code, codespace, data, gas wanted, gas used, events; block events; validator updates; consensus-param updates). Oracle: trace equality with the leader. Non-trivial = distinct (follower variant x transaction kind present in the history)."
+	eipHistory(run) // last: see eip.go
+	run.Floor("extra-EIP histories (switched on and off by governance, restart afterwards) replayed", run.Get("extra_eip_histories_recorded"), 1)
 	run.Floor("simulations of coming transactions on noisy followers during replay", run.Get("noisy_simulations_of_coming_transactions_during_replay"), int64(run.N(200, 2000)))
 	run.Floor("followers compared", run.Get("followers_compared"), int64(run.N(6, 60)))
 	run.Floor("wall-clock sensitive transactions (touches of vesting accounts with end time between block time and a follower's clock)", run.Get("wallclock_sensitive_txs"), int64(run.N(4, 40)))
